@@ -199,7 +199,7 @@ theorem votes_step {cfg : Config} {c : Cluster} (hi : Inv cfg c) (i : Nat) (n' :
 /-! ### Static side conditions on the configuration -/
 
 structure CfgOK (cfg : Config) : Prop where
-  two : 2 ≤ cfg.members.length
+  two : 2 ≤ cfg.voters
   nodup : cfg.voterIds.Nodup
   zero : cfg.isVoter 0 = false
 
@@ -689,7 +689,7 @@ theorem inv_election {cfg : Config} (hc : CfgOK cfg) {c : Cluster} (hi : Inv cfg
     Inv cfg { (c.withNode i ((c.nodes i).election now).1) with
               requests := spawnedCalls ((c.nodes i).election now).1 (c.nodes i).nextRound ((c.nodes i).election now).2
                             ++ c.requests } := by
-  have h2 : 2 ≤ (c.nodes i).config.members.length := by rw [hi.cfgs i]; exact hc.two
+  have h2 : 2 ≤ (c.nodes i).config.voters := by rw [hi.cfgs i]; exact hc.two
   have hidn := hi.ids i
   have out := election_outcome (c.nodes i) now h2
   generalize ((c.nodes i).election now).1 = n' at out ⊢
